@@ -128,6 +128,13 @@ func (x *Explorer) doCallVals(st *State, f *Frame, ins ssa.Instruction, c *ssa.C
 		}
 		if con == nil {
 			if v, ok := x.libModel(st, f, ins, key, target, allArgs, sig); ok {
+				var rv []Val
+				if tu, isT := v.(VTuple); isT && sig.Results().Len() > 1 {
+					rv = tu.E
+				} else if v != nil {
+					rv = []Val{v}
+				}
+				x.observe(st, f, target.Name(), site, allArgs, rv)
 				x.bind(st, f, res, v, isDefer)
 				return
 			}
@@ -408,6 +415,8 @@ func (x *Explorer) observe(st *State, f *Frame, callee, site string, args, resul
 		}
 		st.ghosts[o.Name+".count"] = VInt{T: Add(c.T, IntLit(1))}
 		st.ghosts[o.Name] = VInt{T: tTrue}
+		st.obsSeq++
+		st.ghosts[o.Name+".seq"] = VInt{T: IntLit(int64(st.obsSeq))}
 		for i, a := range args {
 			st.ghosts[fmt.Sprintf("%s.arg%d", o.Name, i)] = a
 		}
